@@ -46,6 +46,15 @@ impl Prop for C01 {
         source: Cases::Generated(Box::new(|| tree(GenCfg::wild_large()).prop_map(|spec| TreeCase { spec }).boxed()), 30_000, 500_000),
       },
       Leg {
+        // the whole tree under a CachedSource: the warm and after-map rounds replay at the root
+        name: "cached roots (ASCII trees under a CachedSource)",
+        source: Cases::Generated(
+          Box::new(|| tree(GenCfg::positional()).prop_map(|t| TreeCase { spec: Spec::Cached(Box::new(t)) }).boxed()),
+          150_000,
+          2_000_000,
+        ),
+      },
+      Leg {
         name: "ascii trees",
         source: Cases::Generated(
           Box::new(|| tree(GenCfg::positional()).prop_map(|spec| TreeCase { spec }).boxed()),
